@@ -563,3 +563,81 @@ func (l *Loaded) poolDomain() map[*ssa.Function]bool {
 	l.poolDom = E
 	return E
 }
+
+// invokerVMFields: the two *VM fields of Invoker by role: the one its
+// constructor (the function returning a new *Invoker) stores from a parameter
+// is the caller's VM, the other is the child VM the calls run on.  Names are
+// used only as a fallback.
+func (l *Loaded) invokerVMFields() (fVM, fChild int) {
+	fVM, fChild = -1, -1
+	T := l.NamedType(modPath, "Invoker")
+	vmT := l.NamedType(modPath, "VM")
+	if T == nil || vmT == nil {
+		return
+	}
+	st, ok := T.Underlying().(*types.Struct)
+	if !ok {
+		return
+	}
+	var vmFields []int
+	for i := 0; i < st.NumFields(); i++ {
+		if pt, ok := st.Field(i).Type().(*types.Pointer); ok && types.Identical(pt.Elem(), vmT) {
+			vmFields = append(vmFields, i)
+		}
+	}
+	if len(vmFields) != 2 {
+		_, fVM = l.structField(modPath, "Invoker", "vm")
+		_, fChild = l.structField(modPath, "Invoker", "child")
+		return
+	}
+	for _, fn := range l.RepoFuncs(func(pp string) bool { return pp == modPath }) {
+		if fn.Signature.Recv() != nil || fn.Signature.Results().Len() != 1 {
+			continue
+		}
+		if rp, ok := fn.Signature.Results().At(0).Type().(*types.Pointer); !ok || !types.Identical(rp.Elem(), T) {
+			continue
+		}
+		eachInstr(fn, func(ins ssa.Instruction) {
+			s, ok := ins.(*ssa.Store)
+			if !ok {
+				return
+			}
+			if f2, ok2 := s.Addr.(*ssa.FieldAddr); ok2 {
+				if pt, ok3 := f2.X.Type().Underlying().(*types.Pointer); ok3 && types.Identical(pt.Elem(), T) {
+					if _, isParam := s.Val.(*ssa.Parameter); isParam {
+						for _, i := range vmFields {
+							if f2.Field == i {
+								fVM = i
+							}
+						}
+					}
+				}
+			}
+		})
+	}
+	for _, i := range vmFields {
+		if i != fVM && fVM >= 0 {
+			fChild = i
+		}
+	}
+	if fVM < 0 {
+		_, fVM = l.structField(modPath, "Invoker", "vm")
+		_, fChild = l.structField(modPath, "Invoker", "child")
+	}
+	return
+}
+
+// storesFieldIdx: the instruction stores field idx of named struct pkgPath.typ
+// (directly, through a whole-struct store, or by calling a repository function
+// that does so on every path).
+func storesFieldIdx(l *Loaded, pkgPath, typ string, idx int) func(ssa.Instruction) bool {
+	T := l.NamedType(pkgPath, typ)
+	if T == nil || idx < 0 {
+		return func(ssa.Instruction) bool { return false }
+	}
+	st, ok := T.Underlying().(*types.Struct)
+	if !ok || idx >= st.NumFields() {
+		return func(ssa.Instruction) bool { return false }
+	}
+	return storesStructField(l, pkgPath, typ, st.Field(idx).Name())
+}
